@@ -156,13 +156,16 @@ def _variants(n_steps):
 
     var("second_engine_shared_target_same_state", shared_same)
 
-    # ... with a slightly different state (x, y rounded to 10 m) the configuration must be refused, not merged
-    def shared_other(c):
-        t = copy.deepcopy(c["engines"][0]["targets"][1])
-        t["state"]["position"] = [round(t["state"]["position"][0], 2), round(t["state"]["position"][1], 2), t["state"]["position"][2]]
-        c["engines"].append(scen.engine(2, [t], [scen.ground_sensor(20004, -20.0, 60.0)]))
+    # ... with a slightly different state (rounded to 1 cm, or to 10 m) the configuration must be refused, not merged
+    def shared_other(digits):
+        def fn(c):
+            t = copy.deepcopy(c["engines"][0]["targets"][1])
+            t["state"]["position"] = [round(x, digits) for x in t["state"]["position"]]
+            c["engines"].append(scen.engine(2, [t], [scen.ground_sensor(20004, -20.0, 60.0)]))
+        return fn
 
-    var("second_engine_shared_target_other_state", shared_other)
+    var("second_engine_shared_target_other_state_1cm", shared_other(5))
+    var("second_engine_shared_target_other_state_10m", shared_other(2))
     return base, out
 
 
@@ -329,7 +332,7 @@ def run_item(item):
         r = _run(cfg, plan)
         if tmpdir:
             shutil.rmtree(tmpdir, ignore_errors=True)
-        if name == "second_engine_shared_target_other_state":
+        if name.startswith("second_engine_shared_target_other_state"):
             refused = bool(r["error"]) and "DuplicateTarget" in r["error"] and not r["truth"]
             res.case("variant/conflicting_target_states_refused", {"pair": name}, refused, nontrivial=True, key=name,
                      signature="C10/variant/conflicting_target_states_accepted", observed={"error": r["error"], "steps": len(r["truth"])},
